@@ -488,3 +488,7 @@ func init() {
 	mutant("dispatch-finishes-under-the-ctx-lock", "no-self-deadlock", "conn.go", "	err := c.readStreamOwned(fr, r)\n	if err == nil {", "	defer r.release()\n\n	err := c.readStream(fr, r.Response)\n	if err == nil {")
 	mutant("write-failure-cleans-up-under-the-ctx-lock", "no-self-deadlock", "conn.go", "		release()\n		c.deletePending(id)\n", "		c.deletePending(id)\n")
 }
+
+func init() {
+	mutant("send-lock-held-while-taking-the-ctx", "lock-order", "conn.go", "	delete(c.pending, id)\n	c.sendLck.Unlock()\n\n	if pb == nil || pb.stream == nil {", "	delete(c.pending, id)\n	defer c.sendLck.Unlock()\n\n	if pb == nil || pb.stream == nil {")
+}
